@@ -164,6 +164,7 @@ var Shares = []Share{
 	{To: "C20", From: "C18", Rule: "R2", Why: "Close, which removes the temporary files, runs however the handler ends", Seed: "C20-L"},
 	{To: "C20", From: "C06", Rule: "R1", Key: `audit writer`, Why: "an audit target that cannot be opened is reported when the WAF is built, not swallowed at the first record", Seed: "C20-G"},
 	// round 7
+	{To: "C13", From: "C06", Rule: "R3", Key: `released on every path`, Pos: `internal/memoize/`, Why: "the pattern cache is shared by every WAF of the process: an entry lock that stays held blocks the construction and the closing of other WAFs", Seed: "C06-E"},
 	{To: "C01", From: "C14", Rule: "R2", Why: "with multiMatch the operator is handed the outputs that report a change: a transformation that wrongly reports \"unchanged\" hides its output from the rule (missed match)", Seed: "C01-M"},
 	{To: "C01", From: "C05", Rule: "R1", Key: `Transaction\.(AllowType|Skip|SkipAfter)\b`, Why: "flow state left over from an earlier transaction makes Eval pass over rules whose targets match", Seed: "C01-N"},
 	{To: "C03", From: "C05", Rule: "R1", Key: reBodyConf, Why: "whether and how far the body is read is this transaction's setting, seeded from the WAF at hand-out: a predecessor's ctl override silently drops the next request's body", Seed: "C03-M"},
